@@ -242,7 +242,11 @@ type synthQI struct {
 
 func comps(v [16]int64) string {
 	var s []string
-	for _, x := range v {
+	n := 16
+	for n > 1 && v[n-1] == 0 {
+		n--
+	}
+	for _, x := range v[:n] {
 		s = append(s, fmt.Sprintf(`{"svn":%d}`, x))
 	}
 	return "[" + strings.Join(s, ",") + "]"
@@ -254,7 +258,7 @@ func elvls(l []elvl) string {
 		if x.status != "" {
 			st = fmt.Sprintf(`,"tcbStatus":"%s"`, x.status)
 		}
-		s = append(s, fmt.Sprintf(`{"tcb":{"isvsvn":%d},"tcbDate":"2023-01-01T00:00:00Z"%s}`, x.isvsvn, st))
+		s = append(s, fmt.Sprintf(`{"tcb":{"isvsvn":%d}%s}`, x.isvsvn, st))
 	}
 	return "[" + strings.Join(s, ",") + "]"
 }
@@ -266,7 +270,7 @@ func (t synthTI) json() []byte {
 		if l.status != "" {
 			st = fmt.Sprintf(`,"tcbStatus":"%s"`, l.status)
 		}
-		ls = append(ls, fmt.Sprintf(`{"tcb":{"sgxtcbcomponents":%s,"pcesvn":%d,"tdxtcbcomponents":%s},"tcbDate":"2023-01-01T00:00:00Z"%s}`, comps(l.sgx), l.pcesvn, comps(l.tdx), st))
+		ls = append(ls, fmt.Sprintf(`{"tcb":{"sgxtcbcomponents":%s,"pcesvn":%d,"tdxtcbcomponents":%s}%s}`, comps(l.sgx), l.pcesvn, comps(l.tdx), st))
 	}
 	for _, id := range t.modOrder {
 		ms = append(ms, fmt.Sprintf(`{"id":"%s","mrsigner":"","attributes":"","attributesMask":"","tcbLevels":%s}`, id, elvls(t.mods[id])))
